@@ -9,6 +9,7 @@ import (
 	"strings"
 	"sync"
 	"sync/atomic"
+	"time"
 
 	goat "github.com/avos-io/goat"
 	"google.golang.org/grpc"
@@ -243,6 +244,14 @@ func c04Run(tier string, seed int64, idx int) *core.Result {
 		var gotHdr, gotTrl metadata.MD
 		var callErr error
 		ctx := svc.WithTag(metadata.NewOutgoingContext(context.Background(), reqCtxMD.Copy()), tag)
+		if i%2 == 1 {
+			// every other call also carries a (far) deadline: the timeout header travels with the
+			// metadata and must not disturb it
+			var dcancel context.CancelFunc
+			ctx, dcancel = context.WithTimeout(ctx, time.Duration(1+i)*time.Hour)
+			defer dcancel()
+			res.Stat("rpcs_with_deadline_and_metadata", 1)
+		}
 		if rp.Kind == "unary" {
 			b.Impl.SetUnary(tag, func(ctx context.Context, t string, req []byte) ([]byte, error) {
 				md, _ := metadata.FromIncomingContext(ctx)
@@ -537,11 +546,11 @@ func init() {
 	core.Register(&core.Prop{
 		ID:             "C04",
 		Level:          "exploration",
-		Rule:           "each case = 20 RPCs (4 kinds cycling) on one connection; per RPC seeded metadata sets: request 0..16 keys via the outgoing context plus 0..4 (and appends to existing keys) via a client interceptor, response headers in two SetHeader/SendHeader calls (repeated keys append), trailers in two SetTrailer calls, keys over [0-9a-z_.-] in random letter case (no two keys equal up to case), 1..4 values, printable ASCII for text keys, arbitrary bytes (NUL, 0xFF, empty) under -bin; header way in {set only, SendHeader, with first message, with the trailer, with the trailer after a first SendMsg that fails to marshal}; 1 in 4 handlers fail; plus one directed RPC per case in which SendHeader is stalled behind the busy connection writer (parked at its hook) while a second goroutine of the handler calls SetHeader: a header that call accepted must reach the caller. Compared key by key (lower-cased keys, per-key order, byte-exact) at the handler, via Header()/Trailer(), via the client stats InHeader for unary headers and on the wire for unary trailers. distinct_nontrivial = RPCs (all distinct by seed) having a multi-valued key or a -bin value with NUL/non-ASCII bytes.",
+		Rule:           "each case = 20 RPCs (4 kinds cycling) on one connection; per RPC seeded metadata sets: request 0..16 keys via the outgoing context plus 0..4 (and appends to existing keys) via a client interceptor, response headers in two SetHeader/SendHeader calls (repeated keys append), trailers in two SetTrailer calls, keys over [0-9a-z_.-] in random letter case (no two keys equal up to case), 1..4 values, printable ASCII for text keys, arbitrary bytes (NUL, 0xFF, empty) under -bin; header way in {set only, SendHeader, with first message, with the trailer, with the trailer after a first SendMsg that fails to marshal}; 1 in 4 handlers fail; every other call also carries a far deadline; plus one directed RPC per case in which SendHeader is stalled behind the busy connection writer (parked at its hook) while a second goroutine of the handler calls SetHeader: a header that call accepted must reach the caller. Compared key by key (lower-cased keys, per-key order, byte-exact) at the handler, via Header()/Trailer(), via the client stats InHeader for unary headers and on the wire for unary trailers. distinct_nontrivial = RPCs (all distinct by seed) having a multi-valued key or a -bin value with NUL/non-ASCII bytes.",
 		Plan:           func(tier string, seed int64) int { return tierN(tier, 30, 2000) },
 		ThoroughRounds: 5,
 		Run:            c04Run,
-		RequiredStats:  func(string) []string { return []string{"rpcs", "metadata_keys_checked", "stalled_send_header_cases"} },
+		RequiredStats:  func(string) []string { return []string{"rpcs", "metadata_keys_checked", "stalled_send_header_cases", "rpcs_with_deadline_and_metadata"} },
 		Assumptions:    []string{"no two keys of one set are equal up to letter case (their merge order is unspecified)"},
 	})
 }
